@@ -54,10 +54,11 @@ func init() {
 	}
 	{
 		var hs []harness
-		for _, n := range []string{"appendAssign", "appendCombine", "newDeref", "badRegexp", "regexpPattern", "regexpSimplify", "sortSlice", "filepathJoin", "flagName"} {
+		for _, n := range []string{"appendAssign", "appendCombine", "newDeref", "rangeAppendAll", "badRegexp", "regexpPattern", "regexpSimplify", "sortSlice", "filepathJoin", "flagName"} {
 			hs = append(hs, harness{Name: "gsxAPI_" + n, Pkg: "checkers", Quick: map[string]int{"K": 3, "B": 2, "strlen": 8, "paths": 1500, "wall_s": 30},
 				Thorough: map[string]int{"K": 4, "B": 2, "strlen": 8, "paths": 4000, "wall_s": 30}, NoValidate: true, Tolerant: true, ReplayFn: replayAPI(n)})
 		}
+		hs = append(hs, harness{Name: "gsxC20RangeAppendAll", Pkg: "checkers", Solver: "z3", Quick: map[string]int{"paths": 400, "wall_s": 60}, NoValidate: true, ReplayFn: replayRangeAppendAll, MustReach: []string{"visited", "reported"}})
 		hs = append(hs, harness{Name: "gsxC20ExitAfterDefer", Pkg: "checkers", Solver: "z3", Quick: map[string]int{"paths": 400, "wall_s": 60}, NoValidate: true, ReplayFn: replayExitAfterDefer, MustReach: []string{"visited", "reported"}})
 		properties["C20"] = &property{ID: "C20", Level: "model_checking", Kinds: []string{"api"}, Harnesses: hs,
 			Assumptions: []string{"as C01; table of documented subjects per checker (builtin name / standard package path) in the harness"}}
